@@ -286,6 +286,8 @@ func (w *World) resolveType(x ast.Expr) types.Type {
 		}
 	case *ast.InterfaceType:
 		return types.NewInterfaceType(nil, nil)
+	case *ast.MapType:
+		return types.NewMap(w.resolveType(n.Key), w.resolveType(n.Value))
 	}
 	specFail("cannot resolve type %s", exprString(x))
 	panic("unreachable")
@@ -1575,6 +1577,17 @@ func (w *World) renamedLocal(fn *ssa.Function, old string) string {
 		}
 	}
 	return res
+}
+
+// uniqueInSnapshot: the snapshot of fn's locals has exactly one variable of this name.
+func (w *World) uniqueInSnapshot(fn *ssa.Function, name string) bool {
+	n := 0
+	for _, s := range w.contracts.Locals[w.funcName(fn)] {
+		if strings.HasPrefix(s, name+"|") {
+			n++
+		}
+	}
+	return n == 1
 }
 
 // snapshotNamesOf: the names the snapshot had for the local that is now called cur.
